@@ -712,3 +712,97 @@ def _(a):
 @cfa.ensures("no fact is served for a configuration read (it may have been written since the guard)")
 def _(a):
     return a.result is None if a.ghost.kind == "config" else True
+
+
+# ----------------------------------------------------------------------------
+# DoSimplify.map_s : a branch / loop is removed only if it can never execute
+#
+# The real method is interpreted on a real little procedure; cursor plumbing
+# (exo.core.internal_cursors) runs natively - it is the subject of C06.
+
+from exo.core import internal_cursors as _ic
+from exo.core.memory import DRAM
+
+_ALL_EXPR_CTORS = (LoopIR.Read, LoopIR.Const, LoopIR.USub, LoopIR.BinOp, LoopIR.Extern,
+                   LoopIR.WindowExpr, LoopIR.StrideExpr, LoopIR.ReadConfig)
+
+_BX, _BY = Sym("bx"), Sym("by")
+
+def _assign(sym, v):
+    return LoopIR.Assign(sym, T.f32, [], LoopIR.Const(v, T.f32, SRC), SRC)
+
+def _mk_proc(body):
+    args = [LoopIR.fnarg(_BX, T.f32, DRAM, SRC), LoopIR.fnarg(_BY, T.f32, DRAM, SRC)]
+    return LoopIR.proc("p", args, [], body, None, SRC)
+
+def _simp_on(g, stmt):
+    o = object.__new__(LS.DoSimplify)
+    o.facts = ChainMap()
+    o.ir = _mk_proc([stmt])
+    o.fwd = lambda x: x
+    o.provenance = None
+    return o, _ic.Cursor.create(o.ir).body()[0]
+
+cmi = contract("C12", F, "DoSimplify.map_s", name=F + "::DoSimplify.map_s[If]")
+cmi.native_modules.add("exo.core.internal_cursors")
+
+@cmi.inputs
+def _(g):
+    k = g.choose(["const", "opaque"], "cond")
+    # a non-literal condition is represented by `n < c` (n a size argument)
+    cond = LoopIR.Const(g.bool("b"), T.bool, SRC) if k == "const" else \
+        LoopIR.BinOp("<", LoopIR.Read(Sym("n"), [], T.index, SRC),
+                     LoopIR.Const(g.int("c"), T.int, SRC), T.bool, SRC)
+    s1, s2 = _assign(_BX, 1.0), _assign(_BY, 2.0)
+    has_else = g.choose([True, False], "else")
+    stmt = LoopIR.If(cond, [s1], [s2] if has_else else [], SRC)
+    o, sc = _simp_on(g, stmt)
+    return {"self": o, "sc": sc, "__ghost__": {"cond": cond, "s1": s1, "s2": s2, "has_else": has_else, "k": k}}
+
+@cmi.ensures("a branch is removed only if its condition is the matching literal")
+def _(a):
+    body = a.self.ir.body
+    gh = a.ghost
+    if len(body) == 1 and isinstance(body[0], LoopIR.If):
+        # kept: nothing may have been lost
+        st = body[0]
+        return (st.body == [gh.s1] and st.orelse == ([gh.s2] if gh.has_else else [])
+                and gh.k == "opaque" and st.cond == gh.cond)
+    if gh.k != "const":
+        return False
+    b = gh.cond.val
+    took_then = body == [gh.s1]
+    took_else = (body == [gh.s2]) if gh.has_else else (len(body) == 1 and isinstance(body[0], LoopIR.Pass))
+    if took_then:
+        return b
+    if took_else:
+        return Not(b)
+    return False
+
+
+cmf = contract("C12", F, "DoSimplify.map_s", name=F + "::DoSimplify.map_s[For]")
+cmf.native_modules.add("exo.core.internal_cursors")
+
+@cmf.inputs
+def _(g):
+    def bound(nm):
+        if g.choose(["const", "opaque"], nm) == "const":
+            return LoopIR.Const(g.int(nm), T.int, SRC)
+        return LoopIR.Read(Sym(nm), [], T.index, SRC)
+    lo, hi = bound("lo"), bound("hi")
+    s1 = _assign(_BX, 1.0)
+    stmt = LoopIR.For(Sym("i"), lo, hi, [s1], LoopIR.Seq(), SRC)
+    o, sc = _simp_on(g, stmt)
+    return {"self": o, "sc": sc, "__ghost__": {"lo": lo, "hi": hi, "s1": s1}}
+
+@cmf.ensures("a loop with a non-empty body is removed only if lo == hi literally")
+def _(a):
+    body = a.self.ir.body
+    gh = a.ghost
+    if len(body) == 1 and isinstance(body[0], LoopIR.For):
+        st = body[0]
+        return And(st.body == [gh.s1], ev(st.lo) == ev(gh.lo), ev(st.hi) == ev(gh.hi))
+    # removed
+    if not (isinstance(gh.lo, LoopIR.Const) and isinstance(gh.hi, LoopIR.Const)):
+        return False
+    return gh.lo.val == gh.hi.val
